@@ -25,9 +25,22 @@ fn main() {
     util::silence_panics();
     let args: Vec<String> = std::env::args().collect();
     if let Err(_) = std::panic::catch_unwind(|| real_main(&args)) {
+        // A panic escaped every guarded call.  The recorder's own code does not panic on the unchanged tree, and library
+        // panics raised through #[track_caller] operators (Index, arithmetic) carry harness line numbers, so the site
+        // cannot tell the two apart: while RECORDING, the panic is appended to the trace as one more history (event
+        // `uncaught_panic`, which TraceKit rejects for every property) and the process exits 98; while REPLAYING it is
+        // written to `<file>.crash` (exit 97).
         let (loc, msg) = util::LAST_PANIC.lock().map(|g| g.clone()).unwrap_or_default();
         eprintln!("uncaught panic at {}: {}", loc, msg);
-        if !loc.contains("lmconform/src") && args.len() >= 4 {
+        if args.len() >= 4 && args[1] == "record" {
+            use std::io::Write;
+            if let Ok(mut f) = std::fs::OpenOptions::new().append(true).open(&args[3]) {
+                let _ = writeln!(f, "{{\"ev\":\"reset\"}}");
+                let _ = writeln!(f, "{}", json!({"ev":"uncaught_panic","ret":"panic","at":loc,"msg":msg}));
+            }
+            std::process::exit(98);
+        }
+        if args.len() >= 4 {
             let _ = std::fs::write(format!("{}.crash", args[3]), json!({"panic_at": loc, "msg": msg}).to_string());
             std::process::exit(util::LIB_PANIC_EXIT);
         }
@@ -79,6 +92,11 @@ fn real_main(args: &[String]) {
                 "C13" => dist::record_c13(&mut rec, seed, thorough),
                 "C15" => readers::record_c15(&mut rec, seed, thorough),
                 "C10" => c09::record_c10(&mut rec, seed, thorough),
+                "selftest-panic" => {
+                    // used by `./check selftest`: a panic outside every guarded call must end up in the trace
+                    let v: Vec<u8> = Vec::new();
+                    let _ = v[std::hint::black_box(1)];
+                }
                 _ => {
                     eprintln!("unknown property {}", prop);
                     std::process::exit(2);
